@@ -24,7 +24,7 @@ def judge(spec: str, cfg: str, records: list[dict], tag: str, jobs: int = 8, per
         tlc.write_ndjson(tf, batches[k])
         e = {"TRACE_FILE": str(tf), "VERDICT_FILE": str(vf)}
         e.update(env or {})
-        res = tlc.run(spec, cfg, env=e, workers=1, tag=f"{tag}-b{k}", timeout=timeout)
+        res = tlc.run(spec, cfg, env=e, workers=1, tag=f"{tag}-b{k}", timeout=timeout, heap="2g")
         if not res.ok or not vf.exists():
             raise tlc.MachineryError(f"trace judge {spec} failed: {res.violated}\n" + "\n".join(res.out.splitlines()[-30:]))
         v = json.loads(vf.read_text())
